@@ -91,7 +91,7 @@ class CallMixin:
                 d[f.value.id] = V(("set", tuple(items)), cur.ty, cur.dep | self._deps(args) | self.ctrl_symbols())
                 return NONE
         if isinstance(f, ast.Attribute) and isinstance(f.value, ast.Name) and f.attr in ("append", "extend", "pop",
-                                                                                        "insert", "remove"):
+                                                                                        "insert", "remove", "popleft", "appendleft"):
             d = self.scope_of(f.value.id)
             if d is not None and ((d[f.value.id].t[0] == "comp" and d[f.value.id].t[1] == "list") or
                                   (d[f.value.id].t[0] == "call" and py("list") in d[f.value.id].ty)):
